@@ -79,7 +79,9 @@ def main():
         for prop in props:
             t0 = time.time()
             env = dict(ENV, VERIF_REPO=wt)
-            rc, out = run([os.path.join(VERIF, "check"), prop, "--tier", "quick"], cwd=VERIF, timeout=1800, env=env)
+            tier = os.environ.get("SEEDED_TIER", "quick")
+            rc, out = run([os.path.join(VERIF, "check"), prop, "--tier", tier] + (["--budget", os.environ["SEEDED_BUDGET"]] if os.environ.get("SEEDED_BUDGET") else []), cwd=VERIF, timeout=3600, env=env)
+            meta.setdefault("tier", tier)
             viol = [l.strip() for l in out.splitlines() if l.startswith("VIOLATION") or l.startswith("  seed=")]
             mach = [l.strip() for l in out.splitlines() if l.startswith("MACHINERY")]
             summ = [l for l in out.splitlines() if re.match(r"^C\d+ (quick|thorough):", l)]
